@@ -1,5 +1,7 @@
 import Pycoin.Driver.Core
 import Pycoin.Model.RealEnv
+import Pycoin.Model.ScriptTools
+import Pycoin.Model.TxInAddr
 /-!
 C08 ops.  Networks are named by their module under pycoin/symbols (`btc`, `xtn`, …); text arguments travel as the
 hex of their UTF-8 bytes.  `realEnv` (Model/RealEnv.lean) plugs the C11 codec models and the hash models into the address model.
@@ -124,6 +126,43 @@ def handle : Handler := fun op args =>
       | .addr (.ok none) => "None"
       | .addr (.error e) => "err:" ++ e.tag
       | .unit => "-"))
+  | "c08registry", [] => some ("ok " ++ ",".intercalate networkCodes)
+  | "c08netfor", [text] => do
+    match networkForNetcode (← parseText? text) with
+    | some n => some ("ok " ++ n.module)
+    | none => some "err ValueError"
+  | "c08contract", [kind, data] => do
+    let d ← parseHex? data
+    match kind with
+    | "nulldata" => some (showBytesR (forNulldata d))
+    | "nulldata_push" => some (showBytesR (forNulldataPush d))
+    | "p2s" => some (showBytesR (contractForP2s realEnv d))
+    | "p2s_wit" => some (showBytesR (contractForP2sWit realEnv d))
+    | _ => none
+  -- parse an address on net1, move the Contract to net2: its script and address there, and its disassembly
+  | "c08override", [net1, net2, text] => do
+    let net1 ← findNet net1
+    let net2 ← findNet net2
+    match parseAddress realEnv net1 (← parseText? text) with
+    | .error e => some ("err " ++ e.tag)
+    | .ok none => some "ok None"
+    | .ok (some i) =>
+      let (sc, ad) := overrideContract realEnv net2 i
+      some ("ok script=" ++ (match sc with | .ok b => hx b | .error e => "err:" ++ e.tag)
+        ++ " address=" ++ (match ad with | .ok (some s) => s | .ok none => "None" | .error e => "err:" ++ e.tag)
+        ++ " asm=" ++ (match sc with
+          | .ok b => hx (Pycoin.Script.utf8 (Pycoin.Script.disassemble b))
+          | .error e => "err:" ++ e.tag)
+        ++ " h160=" ++ (match i.field "hash160" with | some h => hx h | none => "None"))
+  -- TxIn(...).public_key_sec() / .address(network.address): `cb` = 1 for the null outpoint
+  | "c08txin", [net, cb, script] => do
+    let net ← findNet net
+    let script ← parseHex? script
+    let sec := match txInPublicKeySec (cb = "1") script with
+      | .ok (some b) => hx b | .ok none => "None" | .error e => "err:" ++ e.tag
+    let ad := match txInAddress realEnv net (cb = "1") script with
+      | .ok (some a) => a | .ok none => "None" | .error e => "err:" ++ e.tag
+    some s!"ok sec={sec} address={ad}"
   | "c08compile", [text] => do
     some (showBytesR (compileText (← parseText? text)))
   | _, _ => none
